@@ -33,6 +33,8 @@ Of(s, p)        == {j \in JobIds(s) : s.jobs[j].p = p}
 Exec(s, p)      == {j \in Of(s, p) : Executing(s, j)}
 Wait(s, p)      == {j \in Of(s, p) : Waiting(s, j)}
 Plain(s, j)     == s.jobs[j].completed /\ ~s.jobs[j].canceled /\ s.jobs[j].lastErr = "" /\ ~s.jobs[j].errored
+\* "reported completed, not canceled and without error" (the job's own verdict; a task may still carry an error of its own)
+PlainVerdict(s, j) == s.jobs[j].completed /\ ~s.jobs[j].canceled /\ s.jobs[j].lastErr = ""
 
 Defined(p)   == st.cfg[p].def
 Cur(p)       == tbl[st.cfg[p].ver]           \* definition in force (only if Defined(p))
@@ -257,7 +259,7 @@ C08_Continue ==
                (Run(j, t).begun = 1 /\ ~Run(j, t).open)
 
 C08_VerdictSound ==
-  Quiet => \A j \in J : Plain(st, j) => \A t \in TaskIds(j) : Run(j, t).begun = 1 /\ ~Run(j, t).open /\ OkFor(j, t)
+  Quiet => \A j \in J : PlainVerdict(st, j) => \A t \in TaskIds(j) : Run(j, t).begun = 1 /\ ~Run(j, t).open /\ OkFor(j, t)
 
 C08_NoRunningAfterCompleted ==
   Quiet => \A j \in J : st.jobs[j].completed => \A t \in TaskIds(j) : st.jobs[j].tasks[t].status # "running"
